@@ -416,6 +416,10 @@ pub struct DocCase {
     pub format: String,
     /// "" | "combine" | "no-combine"  (command line flag; never mixed with inline configuration)
     pub cli_stream: String,
+    /// front-matter `defaults: {output_stream: ...}` (Markdown only, never together with a CLI flag): "" | "stdout" | "stderr" | "combined".
+    /// An inline configuration of a test wins over it (documented precedence: test case > document defaults).
+    #[serde(default)]
+    pub doc_stream: String,
     pub tests: Vec<DocTest>,
     #[serde(default)]
     pub family: String,
@@ -461,7 +465,8 @@ fn effective_stream(doc: &DocCase, t: &DocTest) -> &'static str {
             if doc.format == "cram" {
                 "combined"
             } else {
-                match t.stream.as_str() {
+                let configured = if t.stream.is_empty() { doc.doc_stream.as_str() } else { t.stream.as_str() };
+                match configured {
                     "stderr" => "stderr",
                     "combined" => "combined",
                     _ => "stdout",
@@ -484,12 +489,16 @@ fn gen_doc(rng: &mut Rng) -> DocCase {
     let mut doc = DocCase {
         format: format.clone(),
         cli_stream: String::new(),
+        doc_stream: String::new(),
         tests: vec![],
         family: String::new(),
     };
     let inline = format == "md" && rng.chance(2, 3);
     if !inline && rng.chance(1, 2) {
         doc.cli_stream = if rng.bool() { "combine" } else { "no-combine" }.into();
+    }
+    if format == "md" && doc.cli_stream.is_empty() && rng.chance(1, 3) {
+        doc.doc_stream = rng.pick(&["stdout", "stderr", "combined"]).to_string();
     }
     let n = 1 + rng.below(5);
     // families: no signal / one signalled command at a chosen position
@@ -601,6 +610,9 @@ fn render_doc(doc: &DocCase, sb: &Sandbox) -> Rendered {
     let mut text = String::new();
     let mut payloads = vec![];
     let cram = doc.format == "cram";
+    if !cram && !doc.doc_stream.is_empty() {
+        text.push_str(&format!("---\ndefaults:\n  output_stream: {}\n---\n\n", doc.doc_stream));
+    }
     for (i, t) in doc.tests.iter().enumerate() {
         let mut cmd = sb.mark(&format!("t{i}"));
         if !t.out.is_empty() {
@@ -654,7 +666,7 @@ fn doc_sample(doc: &DocCase) -> Value {
                    "expected_exit_code": t.expected, "inline_output_stream": t.stream})
         })
         .collect();
-    json!({"part": "e2e", "format": doc.format, "cli": doc.cli_stream, "family": doc.family, "tests": tests})
+    json!({"part": "e2e", "format": doc.format, "cli": doc.cli_stream, "document_default_stream": doc.doc_stream, "family": doc.family, "tests": tests})
 }
 
 fn outcome_title(o: &Value) -> String {
@@ -891,6 +903,11 @@ fn shrink_doc(doc: &DocCase) -> Vec<DocCase> {
     if !doc.cli_stream.is_empty() {
         let mut d = doc.clone();
         d.cli_stream.clear();
+        v.push(d);
+    }
+    if !doc.doc_stream.is_empty() {
+        let mut d = doc.clone();
+        d.doc_stream.clear();
         v.push(d);
     }
     for i in 0..doc.tests.len() {
